@@ -1,4 +1,5 @@
 """C03 parsed-query cache: QueryCache.tla / MC_QueryCache.tla / QueryCache_Trace.tla, harness bin qcache."""
+import json
 
 GEN = """SPECIFICATION Spec
 CONSTANTS KeyMode = "{key}"
@@ -67,8 +68,25 @@ def run(ctx):
     # transition cover of the design model (one script per transition of the cache-state graph), capacities 1 and 2
     scripts += gen("cover", bases="{3}" if q else "{1,3}", edits="strings", caps="{1,2}", maxh=4, view="VIEW View",
                    emit="ACTION_CONSTRAINT Emit")
-    # long random walks over every single-edit variant
-    scripts += gen("walks", caps="{1,2,3}", maxh=12, extra="SimEmit", simulate=(40 if q else 1500, 13))
+    # long seeded random walks over every single-edit variant TLC emitted above (TLC's own -simulate mode spends seconds per
+    # step on this model); the trace specification re-renders every text from the variant, so the binding is still checked
+    pool, seen = [], set()
+    for sc in scripts:
+        for st in sc:
+            if st["op"] == "Exec":
+                k = json.dumps(st["v"], sort_keys=True)
+                if k not in seen:
+                    seen.add(k)
+                    pool.append(st)
+    for k in range(150 if q else 3000):
+        walk = [{"op": "Open", "cap": ctx.rng.choice([1, 2, 3])}]
+        fam = ctx.rng.choice([1, 2, 3, 4, 0])      # mostly inside one base query, sometimes across all
+        cand = [st for st in pool if fam == 0 or st["v"]["b"] == fam]
+        for i in range(12):
+            st = dict(ctx.rng.choice(cand))
+            st["path"] = ctx.rng.choice(["read", "mut"])
+            walk.append(st)
+        scripts.append(walk)
     ctx.assume("queries are 4 base queries over a fixed 4-node graph and their near-duplicates: one spelling edit (keyword case, "
                "quote kind, blanks/tab/newline/case inside a string literal, identifier case, back-ticks) and/or one separator edit "
                "(blanks, tab, newline, CRLF, block comment, line comment with and without its newline) and leading blanks",
